@@ -1,4 +1,4 @@
-import SJ.Proofs.FloatDefault
+import SJ.Proofs.FloatLiteral
 /-!
 # C08 — default float parsing: exact for short literals, within a few ulp otherwise
 
@@ -30,5 +30,87 @@ theorem c08_overflow_macro (a b c : Nat) (hb : b ≤ 9) : overflow a b c = decid
 
 /-- the fuelled transcription of the `f64_from_parts` loop never runs out of fuel -/
 theorem c08_loop_total (f : UInt64) (e : Int) : loop (fuelFor e) f e ≠ .outOfFuel := loop_fuel f e
+
+
+/-! ## Exactness on the short domain -/
+
+/-- **C08, exactness (at `f64_from_parts`).** A significand below `2^53` (in particular: at most 15
+    digits) and a decimal exponent within ±22 give the correctly rounded value of
+    `significand · 10^exponent`: both operands are exact, one correctly rounded `*` or `/`. -/
+theorem c08_exact_short_parts (positive : Bool) (s : Nat) (e : Int) (hs : s < 2 ^ 53)
+    (he1 : -22 ≤ e) (he2 : e ≤ 22) :
+    f64FromParts positive s e = roundNE64 (!positive) (scale10 s e).1 (scale10 s e).2 :=
+  f64FromParts_exact positive s e hs he1 he2
+
+/-- **C08, exactness (literal level).** A grammatical literal with at most 15 digits after dropping
+    leading zeros (`sigVal < 10^15`) and a net decimal exponent within ±22 is deserialised to the
+    correctly rounded double of its exact value, with its sign (`none` never occurs: `roundNE64` of such
+    a value does not overflow). The only side condition is that the fraction is shorter than `2^30`
+    digits (so that the `i32` exponent arithmetic of the parser cannot saturate). -/
+theorem c08_exact_short (l : NumLit) (hwf : l.WF = true) (hD : l.sigVal < 10 ^ 15)
+    (h1 : -22 ≤ l.netExp) (h2 : l.netExp ≤ 22) (hlen : l.fracDigits.length < 2 ^ 30) :
+    floatOfLiteral l = roundNE64 l.neg l.exact.1 l.exact.2 :=
+  floatOfLiteral_exact l hwf hD h1 h2 hlen
+
+/-- `-12345.678e9` (int `12345`, frac `678`, exponent `9`): in the domain, result `-1.2345678e13` -/
+def exLit : NumLit := ⟨true, [0x31, 0x32, 0x33, 0x34, 0x35], [0x36, 0x37, 0x38], false, [0x39]⟩
+example : exLit.WF = true ∧ exLit.sigVal < 10 ^ 15 ∧ -22 ≤ exLit.netExp ∧ exLit.netExp ≤ 22 := by decide
+example : floatOfLiteral exLit = some 0xc2a674e780df0000 := by decide +kernel
+example : f64FromParts true 123456789012345 (-22) = roundNE64 false 123456789012345 (10 ^ 22) := by
+  decide +kernel
+
+/-! ## Finite and signed -/
+
+/-- **C08, finite and signed (at `f64_from_parts`).** -/
+theorem c08_finite_signed_parts (positive : Bool) (s : Nat) (e : Int) (r : UInt64) (hs : s < 2 ^ 64)
+    (h : f64FromParts positive s e = some r) : F64.isFinite r = true ∧ F64.sign r = !positive :=
+  f64FromParts_finite_signed positive s e r hs h
+
+/-- **C08, finite and signed.** Whatever a grammatical literal is deserialised to is neither NaN nor
+    infinite and carries the literal's sign — including `-0`, `-0.0`, `-0e5`, `-1e-999` ↦ `-0.0`. -/
+theorem c08_finite_signed (l : NumLit) (hwf : l.WF = true) (r : UInt64)
+    (h : floatOfLiteral l = some r) : F64.isFinite r = true ∧ F64.sign r = l.neg :=
+  toF64_finite_signed l.neg _ r (partsOfLiteral_good l hwf) h
+
+/-- `-0` and `-1e-400` are `-0.0`; `1e400` is rejected -/
+example : floatOfLiteral ⟨true, [0x30], [], false, []⟩ = some 0x8000000000000000 := by decide +kernel
+example : floatOfLiteral ⟨true, [0x31], [], true, [0x34, 0x30, 0x30]⟩ = some 0x8000000000000000 := by
+  decide +kernel
+example : floatOfLiteral ⟨false, [0x31], [], false, [0x34, 0x30, 0x30]⟩ = none := by decide +kernel
+
+/-! ## The f32 target -/
+
+/-- **C08, f32 (float path).** When the literal does not end as `ParserNumber::U64`/`I64` (it has a
+    fraction or an exponent, or is `-0`, or does not fit `u64`/`i64`), the f32 is the f64 result cast
+    once (`as f32`). -/
+theorem c08_f32_once (l : NumLit) (h : ∀ n, partsOfLiteral l ≠ .u64 n)
+    (h' : ∀ n, partsOfLiteral l ≠ .i64 n) :
+    f32OfLiteral l = (floatOfLiteral l).map F64.toF32 :=
+  toF32_once _ h h'
+
+/-- **C08, f32 (integer path, small).** Integers of magnitude below `2^53` reach f32 identically
+    either way. -/
+theorem c08_f32_once_small_int (l : NumLit) (n : Nat) (hn : n < 2 ^ 53)
+    (h : partsOfLiteral l = .u64 n ∨ partsOfLiteral l = .i64 (-(n : Int))) :
+    f32OfLiteral l = (floatOfLiteral l).map F64.toF32 := by
+  unfold f32OfLiteral floatOfLiteral
+  rcases h with h | h <;> rw [h]
+  · simp only [Parts.toF32, Parts.toF64, Option.map_some, toF32_ofU64 n hn]
+  · simp only [Parts.toF32, Parts.toF64, Option.map_some, Int.natAbs_neg, Int.natAbs_natCast,
+      toF32_neg_ofU64 n hn]
+
+/-- **C08, f32 (integer path, large): the property's f32 clause fails.** serde's f32 visitor casts the
+    `u64` directly (`visit_u64(v) = v as f32`): `1152921573326323713 = 2^60 + 2^36 + 1` becomes
+    `0x5d800001`, whereas the f64 result `0x43b0000010000000` cast to f32 is `0x5d800000`. -/
+theorem c08_f32_once_fails_on_large_int :
+    let l : NumLit := ⟨false, [0x31, 0x31, 0x35, 0x32, 0x39, 0x32, 0x31, 0x35, 0x37, 0x33, 0x33, 0x32,
+      0x36, 0x33, 0x32, 0x33, 0x37, 0x31, 0x33], [], false, []⟩
+    f32OfLiteral l = some 0x5d800001 ∧ floatOfLiteral l = some 0x43b0000010000000 ∧
+    (floatOfLiteral l).map F64.toF32 = some 0x5d800000 := by decide +kernel
+
+example : partsOfLiteral exLit = .parts false 12345678 6 := by decide +kernel
+example : f32OfLiteral exLit = (floatOfLiteral exLit).map F64.toF32 :=
+  c08_f32_once exLit (by intro n h; rw [show partsOfLiteral exLit = .parts false 12345678 6 by decide +kernel] at h; cases h)
+    (by intro n h; rw [show partsOfLiteral exLit = .parts false 12345678 6 by decide +kernel] at h; cases h)
 
 end SJ.Props.C08
